@@ -69,6 +69,7 @@ class RealResult(object):
         self.all_globals = {}       # {global index: (ty, bits)}
         self.table = None           # [func index | None] of table 0
         self.bound = {}             # {import ordinal: bool}
+        self.init = None            # state right after instantiation: {'mem', 'all_globals', 'table', 'mem_bytes'} (init_dump=True)
         self.messages = []
         self.build = []             # command lines
         self.ub = None              # first line of a sanitizer report
@@ -76,6 +77,8 @@ class RealResult(object):
     def to_dict(self):
         d = dict(self.__dict__)
         d.pop("mem_bytes", None)
+        if d.get("init"):
+            d["init"] = {k: v for k, v in d["init"].items() if k != "mem_bytes"}
         d["globals"] = {k.hex() if isinstance(k, bytes) else str(k): v for k, v in self.globals.items()}
         return d
 
@@ -87,6 +90,9 @@ class RealResult(object):
 def translate(w2c2_exe, workdir, name, wasm_bytes, opts=(), timeout=120, env=None):
     """Run the real w2c2 in a fresh directory workdir/name; collects every file it writes."""
     tr = Translated()
+    name = re.sub(r"[^A-Za-z0-9]", "", name) or "m"       # w2c2 derives the module name from the alphanumerics of the file name
+    if name[0].isdigit():
+        name = "m" + name
     d = os.path.join(workdir, name)
     if os.path.isdir(d):
         shutil.rmtree(d)
@@ -204,7 +210,7 @@ def show(ty, expr):
     return "f64:%llx", "(unsigned long long)bits_f64(%s)" % expr
 
 
-def gen_main(module, name, header_text, script, imports_spec=None, instances=1):
+def gen_main(module, name, header_text, script, imports_spec=None, instances=1, init_dump=False):
     """C text of the embedder for `script` = [(instance, export name bytes, [(ty, bits)])]."""
     h = parse_header(header_text, module, name)
     gl = (imports_spec or {}).get("globals", {})
@@ -314,7 +320,8 @@ def gen_main(module, name, header_text, script, imports_spec=None, instances=1):
     rep = {"@@HEADER@@": name + ".h", "@@NINST@@": str(instances), "@@MOD@@": name,
            "@@IMPORT_STORAGE@@": "\n".join(storage), "@@HOST_FUNCS@@": "\n\n".join(hosts),
            "@@RESOLVE@@": "\n".join(resolve), "@@FUNC_IDS@@": "\n".join(funcids),
-           "@@ALLOC_IMPORTS@@": "\n".join(alloc), "@@CALLS@@": "\n".join(calls), "@@DUMPS@@": "\n".join(dumps)}
+           "@@ALLOC_IMPORTS@@": "\n".join(alloc), "@@CALLS@@": "\n".join(calls), "@@DUMPS@@": "\n".join(dumps),
+           "@@INIT_DUMP@@": "1" if init_dump else "0"}
     for k, v in rep.items():
         t = t.replace(k, v)
     return t
@@ -343,9 +350,26 @@ def parse_output(out, module, instances, ncalls, script, rundir, keep_mem=False)
     rs = [RealResult() for _ in range(instances)]
     per_call = {}
     done = False
+    phase = "final"
+    inits = [{"mem": None, "all_globals": {}, "table": None, "mem_bytes": None} for _ in range(instances)]
+
     for line in out.splitlines():
         w = line.split()
         if not w:
+            continue
+        if w[0] == "p":
+            phase = w[1]
+            continue
+        if phase == "init" and w[0] in ("b", "g", "t", "m"):
+            if w[0] == "g":
+                t, b = w[3].split(":")
+                inits[int(w[1])]["all_globals"][int(w[2])] = (t, int(b, 16))
+            elif w[0] == "t":
+                inits[int(w[1])]["table"] = [None if int(x.split(":")[1]) == -1 else int(x.split(":")[1]) for x in w[3:]]
+            elif w[0] == "m":
+                data = open(os.path.join(rundir, w[4]), "rb").read()
+                inits[int(w[1])]["mem"] = {"sha256": hashlib.sha256(data).hexdigest(), "pages": int(w[2])}
+                inits[int(w[1])]["mem_bytes"] = data if keep_mem else None
             continue
         if w[0] == "i":
             r = rs[int(w[1])]
@@ -386,16 +410,18 @@ def parse_output(out, module, instances, ncalls, script, rundir, keep_mem=False)
             done = True
         elif w[0] == "err":
             raise E2EError("embedder: " + line)
-    for r in rs:
+    for k, r in enumerate(rs):
         for e in module.exports:
             if e.kind == "global" and e.index in r.all_globals:
                 r.globals[bytes(e.name)] = r.all_globals[e.index]
+        if inits[k]["mem"] is not None or inits[k]["all_globals"] or inits[k]["table"] is not None:
+            r.init = inits[k]
     return rs, per_call, done
 
 
 def run_real_multi(repo_copy, workdir, w2c2_exe, module, script, imports_spec=None, instances=1, w2c2_opts=(),
                    cc="gcc", copts=("-O1",), sanitize=False, name="m", timeout=20, keep_mem=False, wasm_bytes=None,
-                   translated=None, keep=False):
+                   translated=None, keep=False, init_dump=False):
     """script = [(instance, export name, [(ty, bits)])].  Returns [RealResult] (one per instance); the
     `results` of instance k are those of its own calls, in order."""
     tr = translated or translate(w2c2_exe, workdir, name, wasm_bytes if wasm_bytes is not None else encode(module), w2c2_opts)
@@ -411,7 +437,7 @@ def run_real_multi(repo_copy, workdir, w2c2_exe, module, script, imports_spec=No
     if not tr.ok:
         return fail("w2c2_error", "rc=%r %s" % (tr.rc, tr.stderr[-300:]), tr.cmd)
     try:
-        main_text = gen_main(module, tr.name, open(tr.header).read(), script, imports_spec, instances)
+        main_text = gen_main(module, tr.name, open(tr.header).read(), script, imports_spec, instances, init_dump)
         main_c = os.path.join(tr.dir, "e2e_main_%s.c" % tr.name)
         with open(main_c, "w") as f:
             f.write(main_text)
